@@ -150,9 +150,10 @@ Record stat := { s_lam : Qc; s_cells : list cell }.
 Definition mk_stat (lam : Qc) (cells : list cell) : stat := {| s_lam := lam; s_cells := nf cells |}.
 
 (* p-value terms, as the code produces them:
-   POne            the literal 1.0 scipy's chi2_contingency returns when dof = 0 (unconditional branch)
+   POne            the literal 1.0: scipy's chi2_contingency for dof = 0 (unconditional branch), pgmpy's
+                   own `else 1.0` for a pooled dof of 0 (conditional branch)
    PSF s d         scipy.stats.chi2.sf(s, d)          (unconditional branch, via scipy power_divergence)
-   P1mCDF s d      1 - scipy.stats.chi2.cdf(s, d)     (conditional branch, CITests.py line 397)      *)
+   P1mCDF s d      1 - scipy.stats.chi2.cdf(s, d)     (conditional branch, pooled dof > 0)      *)
 Inductive pterm := POne | PSF (s : stat) (dof : nat) | P1mCDF (s : stat) (dof : nat).
 
 (* ------------------------------------------------------------------ interpretations *)
